@@ -60,7 +60,10 @@ function resolve(v, path) {
       if (mk && x instanceof Map && mk[1] !== "item") for (const [k, val] of x) if (safeJson(k) === mk[2]) next.push({ val: mk[1] === "key" ? k : val, missing: false });
       if (mk && x instanceof Set && mk[1] === "item") for (const it of x) if (safeJson(it) === mk[2]) next.push({ val: it, missing: false });
       if (typeof x === "object" || typeof x === "function") {
-        if (seg in x) next.push({ val: x[seg], missing: false });
+        // (a member of Object.prototype that the value does not carry itself is a missing property)
+        const inheritedOnly = !Object.prototype.hasOwnProperty.call(x, seg) && Object.prototype.hasOwnProperty.call(Object.prototype, seg) && x[seg] === Object.prototype[seg];
+        if (seg in x && !inheritedOnly) next.push({ val: x[seg], missing: false });
+        else if (inheritedOnly && last) next.push({ val: undefined, missing: true });
         else if (last && !(m && Array.isArray(x))) next.push({ val: undefined, missing: true });
       }
     }
